@@ -73,6 +73,7 @@ def norm_point(p: dict) -> dict:
     d["rxns"] = [{"name": r["name"], "rate": r["rate"], "st": {k: int(v) for k, v in fn_to_dict(r["st"]).items()}}
                  for r in d["rxns"]]
     d["ss"] = fn_to_dict(d["ss"])
+    d["init"] = fn_to_dict(d.get("init", {}))
     q["desc"] = d
     for key in ("env", "flux", "ss", "ssflux"):
         q[key] = fn_to_dict(p[key])
@@ -88,10 +89,19 @@ def build(pt: dict, inits: dict | None = None):
     d = pt["desc"]
     env = {k: fl(v) for k, v in pt["env"].items()}
     m = Model()
-    for v in d["vars"]:
-        m.add_variable(v, float((inits or env)[v]))
     for q in d["pars"]:
         m.add_parameter(q, env[q])
+    for v in d["vars"]:
+        if inits is None and v in d.get("init", {}):
+            # the initial value is an assignment rule of parameters (and earlier variables): the model's initial state
+            # is what the specification evaluated for this point
+            from mxlpy import InitialAssignment
+
+            tree = d["init"][v]
+            args = ast_syms(tree, [])
+            m.add_variable(v, InitialAssignment(fn=RateFn(f"init_{v}", tree, args), args=args))
+        else:
+            m.add_variable(v, float((inits or env)[v]))
     for r in d["rxns"]:
         args = ast_syms(r["rate"], [])
         m.add_reaction(r["name"], RateFn(r["name"], r["rate"], args), args=args,
